@@ -107,16 +107,17 @@ theorem addsOf_cons (o : Op M) (r : List (Op M)) : addsOf (o :: r) = addsOf [o] 
   cases o <;> simp [addsOf]
 
 theorem runOps_inv (a : Arr M) (h0 : List (Nat × M)) (t0 latest : Nat) (ops : List (Op M))
-    (inv : Inv a h0 t0 latest) (hc : Cur a latest) (hpos : 0 < latest) (mono : MonoOps latest ops) :
+    (inv : Inv a h0 t0 latest) (hc : Cur a latest) (hpos : ∀ o ∈ ops, 0 < o.time) (mono : MonoOps latest ops) :
     Inv (runOps a ops) (h0 ++ addsOf ops) t0 (lastTime latest ops) ∧ Cur (runOps a ops) (lastTime latest ops) ∧
       (runOps a ops).L = a.L ∧ (runOps a ops).n = a.n := by
   induction ops generalizing a h0 latest with
   | nil => exact ⟨by simpa [runOps, addsOf, lastTime] using inv, hc, rfl, rfl⟩
   | cons o r ih =>
     obtain ⟨hle, hm⟩ := mono
-    have hp : 0 < o.time := Nat.lt_of_lt_of_le hpos hle
+    have hp : 0 < o.time := hpos o (List.mem_cons_self ..)
     obtain ⟨hi, hcur, hL, hn⟩ := op_step a h0 t0 latest o inv hle hp
-    obtain ⟨hi', hc', hL', hn'⟩ := ih (o.apply a) (h0 ++ addsOf [o]) o.time hi hcur hp hm
+    obtain ⟨hi', hc', hL', hn'⟩ := ih (o.apply a) (h0 ++ addsOf [o]) o.time hi hcur
+      (fun o' ho' => hpos o' (List.mem_cons_of_mem _ ho')) hm
     refine ⟨?_, hc', hL'.trans hL, hn'.trans hn⟩
     rw [addsOf_cons, ← List.append_assoc]
     exact hi'
@@ -174,15 +175,33 @@ structure Reach (a : Arr M) (n L : Nat) (h : List (Nat × M)) (latest now : Nat)
   cur : Cur a latest
   inv : ∃ t0, Inv a h t0 latest
 
-/-- every array the driver can reach: created at `now0 > 0`, then any time-monotone sequence of recordings
-    and refreshes, read at any `now` not before the last call -/
-theorem reach_ops (n L now0 : Nat) (hn : 0 < n) (hL : 0 < L) (h0 : 0 < now0) (ops : List (Op M))
-    (mono : MonoOps now0 ops) (now : Nat) (hnow : ∀ o ∈ ops, o.time ≤ now) (hnow0 : now0 ≤ now) :
+/-- every array the driver can reach: created at any `now0` (0 included), then any time-monotone sequence of
+    recordings and refreshes at positive times (the library ignores calls at time 0), read at any `now` not before
+    the last call -/
+theorem reach_ops_pos (n L now0 : Nat) (hn : 0 < n) (hL : 0 < L) (ops : List (Op M))
+    (mono : MonoOps now0 ops) (now : Nat) (hnow : ∀ o ∈ ops, o.time ≤ now) (hnow0 : now0 ≤ now)
+    (h0 : ∀ o ∈ ops, 0 < o.time) :
     Reach (runOps (mk n L now0) ops) n L (addsOf ops) (lastTime now0 ops) now := by
   obtain ⟨hi, hc, hL', hn'⟩ := runOps_inv (mk n L now0 : Arr M) [] now0 now0 ops (mk_inv n L now0 hn hL)
     (mk_cur n L now0 hn) h0 mono
   exact ⟨by simpa [mk] using hn', by simpa [mk] using hL', hn, hL, lastTime_le now0 now ops hnow0 hnow, hc,
     ⟨now0, by simpa using hi⟩⟩
+
+theorem monoOps_ge (prev : Nat) (ops : List (Op M)) (mono : MonoOps prev ops) : ∀ o ∈ ops, prev ≤ o.time := by
+  induction ops generalizing prev with
+  | nil => simp
+  | cons o r ih =>
+    intro o' ho'
+    rcases List.mem_cons.mp ho' with rfl | ho'
+    · exact mono.1
+    · exact le_trans mono.1 (ih o.time mono.2 o' ho')
+
+/-- the special case of a creation time `now0 > 0` (then every call time is positive) -/
+theorem reach_ops (n L now0 : Nat) (hn : 0 < n) (hL : 0 < L) (h0 : 0 < now0) (ops : List (Op M))
+    (mono : MonoOps now0 ops) (now : Nat) (hnow : ∀ o ∈ ops, o.time ≤ now) (hnow0 : now0 ≤ now) :
+    Reach (runOps (mk n L now0) ops) n L (addsOf ops) (lastTime now0 ops) now :=
+  reach_ops_pos n L now0 hn hL ops mono now hnow hnow0
+    (fun o ho => Nat.lt_of_lt_of_le h0 (monoOps_ge now0 ops mono o ho))
 
 /-! ## pure recording histories are a special case -/
 
@@ -214,5 +233,45 @@ theorem runOps_append (a : Arr M) (o1 o2 : List (Op M)) : runOps a (o1 ++ o2) = 
   induction o1 generalizing a with
   | nil => rfl
   | cons o r ih => simp [runOps, ih]
+
+/-! ## calls at time 0 ("no time" for the library) change nothing -/
+
+/-- the calls the library does not ignore -/
+def posOps (ops : List (Op M)) : List (Op M) := ops.filter fun o => decide (0 < o.time)
+
+theorem apply_time0 (a : Arr M) (o : Op M) (h : o.time = 0) : o.apply a = a := by
+  cases o with
+  | add t x => simp only [Op.time] at h; subst h; simp [Op.apply, addAt]
+  | refresh t => simp only [Op.time] at h; subst h; simp [Op.apply, Sentinel.LA.refresh, addAt]
+
+theorem runOps_posOps (a : Arr M) (ops : List (Op M)) : runOps a ops = runOps a (posOps ops) := by
+  induction ops generalizing a with
+  | nil => rfl
+  | cons o r ih =>
+    by_cases hp : 0 < o.time
+    · simp only [posOps, List.filter_cons, hp, decide_true, if_true, runOps]
+      exact ih _
+    · have h0 : o.time = 0 := by omega
+      simp only [posOps, List.filter_cons, hp, decide_false, runOps, apply_time0 a o h0]
+      simpa [posOps] using ih a
+
+theorem monoOps_posOps (prev : Nat) (ops : List (Op M)) (mono : MonoOps prev ops) : MonoOps prev (posOps ops) := by
+  induction ops generalizing prev with
+  | nil => trivial
+  | cons o r ih =>
+    obtain ⟨hle, hm⟩ := mono
+    by_cases hp : 0 < o.time
+    · simp only [posOps, List.filter_cons, hp, decide_true, if_true]
+      exact ⟨hle, ih o.time hm⟩
+    · have h0 : o.time = 0 := by omega
+      have hprev : prev = 0 := by omega
+      simp only [posOps, List.filter_cons, hp, decide_false]
+      have := ih o.time hm
+      rw [h0] at this
+      rw [hprev]
+      simpa [posOps] using this
+
+theorem mem_posOps (ops : List (Op M)) (o : Op M) : o ∈ posOps ops ↔ o ∈ ops ∧ 0 < o.time := by
+  simp [posOps]
 
 end Sentinel.LA
